@@ -1,21 +1,25 @@
 (* The writer's nesting counter equals the reference depth (lemmas for Properties/C10.v).
 
-   walk_depth: for a spanned, shaped tree x inside the domain [domD] (the domain of C09_aligned, minus one-line ifs
-   with an else part and table constructors with a trailing separator), started with the cursor at c and
-   _indent = the reference depth state at c (Proofs/TokenDepthProofs.v St), the walk over [view x] passes, with every
-   non-empty white-space run, the indent  token_depth ts i  of the significant token i the run ends at
-   (Spec/TokenDepth.v: the number of blocks and brackets open at i, a closing token counted closed), and leaves
-   _indent as it found it.  The proof re-runs the induction of Proofs/AstWriterAligned.v with the counter and the
-   depth state threaded through (Proofs/WriterCursorD.v emitsD). *)
+   walk_depth: for a spanned, shaped tree x inside the domain [domD] (the domain of C09_aligned, minus table
+   constructors with a trailing separator; every one-line if fenced by the first newline after its condition, which
+   the parser guarantees), started with the cursor at c and _indent = the reference depth state at c
+   (Proofs/TokenDepthProofs.v St), the walk over [view x] passes, with every non-empty white-space run that holds a
+   newline token, the indent  token_depth ts i  of the significant token i the run ends at (Spec/TokenDepth.v: the
+   number of blocks and brackets open at i, a closing token counted closed), and leaves _indent as it found it.
+   The proof re-runs the induction of Proofs/AstWriterAligned.v with the counter and the depth state threaded
+   through (Proofs/WriterCursorD.v emitsD).  The part of a one-line `if (c) ...` after its condition - where the
+   writer's counter deviates from the reference depth (the else part is written one level deeper) - holds no newline
+   token; there only the facts of the alignment proof are used (emitsD_tail). *)
 From PV Require Import Base.Prelude Base.PySlice Spec.LuaTokens Spec.LuaGrammar Spec.FmtShape Spec.TokenDepth Model.Tokens Model.Parser
   Model.WriterChunks Model.AstWriter Model.WriterDomain Proofs.ParserProofs Proofs.TreeShape Proofs.WriterCursor Proofs.WriterCursorD
-  Proofs.AstWriterAligned Proofs.TokenDepthProofs.
+  Proofs.AstWriterProofs Proofs.AstWriterIndent Proofs.AstWriterAligned Proofs.TokenDepthProofs.
 From Coq Require Import ZifyBool.
 Ltac Zify.zify_post_hook ::= Z.to_euclidean_division_equations.
 
 (* ---------- the two forms whose indentation deviates from the reference depth ---------- *)
 (* no one-line if with an else part (present or dropped): the writer indents the else block by one, the reference
-   counts the `else` of a one-line if as closing and opening (net zero); such tokens never begin a line *)
+   counts the `else` of a one-line if as closing and opening (net zero); such tokens never begin a line.
+   (Not an exclusion of walk_depth any more; kept for the examples of Properties/C10.v.) *)
 Fixpoint no_short_else (t : tree) : bool :=
   match t with
   | Node tag _ _ sh fs =>
@@ -43,6 +47,35 @@ Fixpoint no_trailing_sep (t : tree) : bool :=
   | Hid x => no_trailing_sep x
   | _ => true
   end.
+
+(* every one-line if ends no later than the first newline token after its condition (ParserProofs.fence_cond, as a
+   boolean): what the parser's _max_pos fence guarantees (wf_fenced below) *)
+Fixpoint fenced (ts : list token) (t : tree) : bool :=
+  match t with
+  | Node tag _ e sh fs =>
+      (if (tag =? tStatIf) && sh
+       then match fs with [_; Lst (Lst pr :: _)] => e <=? newline_after ts (cond_close pr + 1) | _ => false end
+       else true)
+      && forallb (fenced ts) fs
+  | Lst l => forallb (fenced ts) l
+  | Paren _ _ x => fenced ts x
+  | Hid x => fenced ts x
+  | _ => true
+  end.
+
+Lemma wf_fenced ts t : forall hi, wf ts hi t -> fenced ts t = true.
+Proof.
+  induction t as [tag s e sh fs IH| | l IH| | | | |i j x IH|x IH] using tree_ind'; intros hi H; try reflexivity.
+  - apply wf_node_inv in H. destruct H as (_ & _ & H3 & H4). cbn [fenced]. apply andb_true_iff. split.
+    + destruct ((tag =? tStatIf) && sh) eqn:E; [|reflexivity]. apply andb_true_iff in E. destruct E as [E1 E2].
+      destruct (H4 ltac:(lia) E2) as (k & pr & ep & -> & Hle). unfold next_newline in Hle. lia.
+    + clear H4. induction IH as [|x r Hx Hr IH2]; [reflexivity|]. cbn [wfl forallb] in *. destruct H3 as [H3 H3'].
+      rewrite (Hx _ H3), (IH2 H3'). reflexivity.
+  - apply wf_lst_inv in H. cbn [fenced]. induction IH as [|x r Hx Hr IH2]; [reflexivity|]. cbn [wfl forallb] in *.
+    destruct H as [H H']. rewrite (Hx _ H), (IH2 H'). reflexivity.
+  - cbn [wf fenced] in *. eapply IH; exact H.
+  - cbn [wf fenced] in *. eapply IH; exact H.
+Qed.
 
 Section WD.
 Variable ts : list token.
@@ -73,7 +106,7 @@ Local Notation balanced := (TokenDepthProofs.balanced ts).
 Local Notation kwleaf := (AstWriterAligned.kwleaf ts).
 Local Notation nearB := (nearB ts).
 
-Definition domD (x : tree) : bool := AstWriterAligned.dom ts x && no_short_else x && no_trailing_sep x.
+Definition domD (x : tree) : bool := AstWriterAligned.dom ts x && fenced ts x && no_trailing_sep x.
 
 (* ------------------------------------------------------------------ leaves *)
 Lemma emitsD_kw B E tag s e sh fs d c i :
@@ -635,7 +668,7 @@ Proof. unfold domD. intros H. apply andb_true_iff in H. destruct H as [H _]. app
 Lemma domD_node_in tag s e sh fs y : domD (Node tag s e sh fs) = true -> In y fs -> domD y = true.
 Proof.
   unfold domD. intros H Hin. apply andb_true_iff in H. destruct H as [H H2]. apply andb_true_iff in H. destruct H as [H0 H1].
-  cbn [no_short_else no_trailing_sep] in *.
+  cbn [fenced no_trailing_sep] in *.
   apply andb_true_iff in H1. destruct H1 as [_ H1]. apply andb_true_iff in H2. destruct H2 as [_ H2].
   rewrite forallb_forall in H1, H2. rewrite (H1 y Hin), (H2 y Hin), (dom_node_in ts _ _ _ _ _ y H0 Hin). reflexivity.
 Qed.
@@ -643,7 +676,7 @@ Qed.
 Lemma domD_lst_in l y : domD (Lst l) = true -> In y l -> domD y = true.
 Proof.
   unfold domD. intros H Hin. apply andb_true_iff in H. destruct H as [H H2]. apply andb_true_iff in H. destruct H as [H0 H1].
-  cbn [no_short_else no_trailing_sep] in *. rewrite forallb_forall in H1, H2.
+  cbn [fenced no_trailing_sep] in *. rewrite forallb_forall in H1, H2.
   rewrite (H1 y Hin), (H2 y Hin), (dom_lst_in ts _ y H0 Hin). reflexivity.
 Qed.
 
@@ -697,6 +730,118 @@ Proof.
   - exfalso. destruct g; try discriminate Eg. destruct r as [|h r]; [cbn in Hl; discriminate Hl|].
     cbn [fields_strict] in Hs'. destruct g; discriminate Hs'.
   - cbn [negb andb]. apply (IH g Hs' Eg). destruct r as [|h r]; [reflexivity|]. exact Hl.
+Qed.
+
+(* ------------------------------------------------------------------ a stretch without newline tokens *)
+Definition nlfree (a b : Z) : Prop := forall j t, a <= j < b -> tok_at j = Some t -> is_newline t = false.
+
+Lemma existsb_none {A} (p : A -> bool) l : (forall x, In x l -> p x = false) -> existsb p l = false.
+Proof. induction l as [|x r IH]; intros H; [reflexivity|]. cbn [existsb]. rewrite (H x (or_introl eq_refl)), IH; [reflexivity | intros y Hy; apply H; right; exact Hy]. Qed.
+
+(* chunks that tile a stretch without newline tokens: their runs hold none, so completeness (good) is all goodD asks *)
+Lemma tiling_line q cs p : tiling ts q cs p -> 0 <= q -> nlfree q p -> Forall (good ts) cs -> Forall goodD cs.
+Proof.
+  induction 1 as [q|q ind e run cs p H1 H2 H3 H4 IH|q text cs p H IH]; intros Hq Hnl Hg; [constructor| |].
+  - inversion Hg as [|c0 l0 Hg1 Hg2]; subst. pose proof (zlen_nonneg run) as Hr. pose proof (tiling_mono ts _ _ _ H4) as Hm.
+    constructor; [|apply IH; [lia | intros j t Hj; apply Hnl; lia | exact Hg2]].
+    cbn [WriterCursor.good] in Hg1. cbn [WriterCursorD.goodD]. destruct Hg1 as [Hg1|Hg1]; [left; exact Hg1 | right]. split; [exact Hg1|].
+    intros Hex. exfalso. rewrite existsb_none in Hex; [discriminate Hex|]. intros t Hin.
+    apply In_nth_error in Hin. destruct Hin as (k & Hk).
+    assert (Hkl : (k < length run)%nat) by (apply nth_error_Some; congruence).
+    rewrite H1 in Hk. rewrite ListX.nth_error_firstn in Hk by exact Hkl. rewrite ListX.nth_error_skipn in Hk.
+    apply (Hnl (q + Z.of_nat k) t); [unfold zlen in *; lia|].
+    unfold AstWriter.tok_at. destruct (q + Z.of_nat k <? 0) eqn:E0; [lia|].
+    replace (Z.to_nat (q + Z.of_nat k)) with (Z.to_nat q + k)%nat by lia. exact Hk.
+  - inversion Hg as [|c0 l0 Hg1 Hg2]; subst. pose proof (tiling_mono ts _ _ _ H) as Hm.
+    constructor; [exact I | apply IH; [lia | intros j t Hj; apply Hnl; lia | exact Hg2]].
+Qed.
+
+(* the tail of an action that the alignment proof covers as a whole: if the first part m1 is known with the counter,
+   what follows lies on one line and the counter is restored at the end, then the whole action is known with the counter *)
+Lemma emitsD_tail B E E1 M m1 m2 c c1 c' L :
+  (forall st, M st = (m1 >> m2) st) -> emitsB ts B M c c' L -> emitsD B E E1 m1 c c1 -> ext ts m2 ->
+  (forall st st', M st = Ok st' -> w_ind st' = w_ind st) -> nlfree c1 c' ->
+  emitsD B E E M c c'.
+Proof.
+  intros Heq HB H1 Hext Hind Hnl st Hn He.
+  destruct (H1 st Hn He) as (st1 & cs1 & X1 & P1 & Q1 & I1 & O1 & G1).
+  destruct (HB st Hn) as (st' & cs & X & Pp & Q & O & _ & G).
+  pose proof X as X2. rewrite Heq in X2. unfold seq in X2. rewrite X1 in X2.
+  assert (H0 : 0 <= w_pos st1) by (destruct Hn as [H0 _]; lia).
+  destruct (Hext st1 st' H0 X2) as (cs2 & O2 & T2).
+  assert (Ecs : cs = cs1 ++ cs2).
+  { pose proof O as O'. rewrite O2, O1, app_assoc in O'. apply app_inv_tail in O'. rewrite <- rev_app_distr in O'.
+    apply (f_equal (@rev chunk)) in O'. rewrite !rev_involutive in O'. symmetry. exact O'. }
+  exists st', (cs1 ++ cs2). split; [exact X|]. split; [exact Pp|]. split; [exact Q|]. split; [rewrite (Hind _ _ X); exact He|].
+  split; [rewrite O2, O1, rev_app_distr, app_assoc; reflexivity|].
+  apply Forall_app. split; [exact G1|]. rewrite P1, Pp in T2.
+  apply (tiling_line c1 cs2 c' T2); [lia | exact Hnl|]. rewrite Ecs in G. apply Forall_app in G. apply G.
+Qed.
+
+Ltac seq_eq :=
+  let st := fresh "st" in
+  intros st; unfold seq;
+  repeat match goal with
+         | |- context [match ?a with Ok _ => _ | Err _ => _ end] =>
+             lazymatch a with context [match _ with Ok _ => _ | Err _ => _ end] => fail | _ => destruct a end
+         end;
+  reflexivity.
+
+(* ------------------------------------------------------------------ if (c) ... [else ...] on one line *)
+Lemma shortif_okD s e i s0 e0 sh0 cond b ep :
+  mtok (pkw "if"%bs) i -> shaped cExp (Node tExpValue s0 e0 sh0 cond) -> shaped cChunk b -> shortelse ts (shaped cChunk) ep ->
+  domD (Node tStatIf s e true [Kw i; Lst (Lst (cond ++ [b]) :: ep)]) = true ->
+  (forall i' j x0, cond = [Paren i' j x0] -> shaped cExp x0 -> domD x0 = true -> wokD cExp x0) ->
+  wokD cStat (Node tStatIf s e true [Kw i; Lst (Lst (cond ++ [b]) :: ep)]).
+Proof.
+  intros Hmi Hcs Hbs Heps HdomD Hsub. pose proof (domD_dom _ HdomD) as Hdom.
+  assert (HAL : AstWriterAligned.wok ts cStat (Node tStatIf s e true [Kw i; Lst (Lst (cond ++ [b]) :: ep)])).
+  { apply (walk_aligned ts binops unops Hplain HbinP HunP _ cStat _ (le_n _)); [eapply sh_shortif; eassumption | exact Hdom]. }
+  assert (Hfen : e <= next_newline ts (cond_close (cond ++ [b]) + 1)).
+  { pose proof HdomD as Hx. unfold domD in Hx. apply andb_true_iff in Hx. destruct Hx as [Hx _]. apply andb_true_iff in Hx. destruct Hx as [_ Hx].
+    cbn [fenced] in Hx. apply andb_true_iff in Hx. destruct Hx as [Hx _]. cbn in Hx. unfold next_newline. lia. }
+  pose proof Hdom as Hd0. unfold AstWriterAligned.dom in Hd0. repeat (apply andb_true_iff in Hd0; destruct Hd0 as [Hd0 ?]).
+  match goal with H : strict _ = true |- _ => cbn in H; rename H into Hst end.
+  apply andb_true_iff in Hst. destruct Hst as [Hst _]. apply andb_true_iff in Hst. destruct Hst as [Hcp _].
+  destruct cond as [|p [|q cond']]; cbn [app] in *;
+    [destruct b; discriminate Hcp | | destruct p; try discriminate Hcp; destruct cond'; discriminate Hcp].
+  destruct p; try discriminate Hcp.
+  match goal with H : TreeShape.shaped _ _ _ cExp (Node tExpValue _ _ _ [Paren _ _ _]) |- _ =>
+    inversion H; subst;
+    try match goal with Hn : TreeShape.shaped _ _ _ _ (Paren _ _ _) |- _ => destruct (shaped_node _ _ _ _ _ Hn) as (? & ? & ? & ? & ? & Hn'); discriminate Hn' end
+  end.
+  match goal with |- wokD _ (Node _ _ _ _ [Kw _; Lst (Lst [Paren ?i' ?j ?x0; ?b] :: ?ep)]) =>
+    assert (Hdl : domD (Lst (Lst [Paren i' j x0; b] :: ep)) = true) by (eapply domD_node_in; [exact HdomD | right; left; reflexivity]);
+    assert (Hdp : domD (Lst [Paren i' j x0; b]) = true) by (eapply domD_lst_in; [exact Hdl | left; reflexivity]);
+    assert (Hdx : domD x0 = true) by (apply (domD_paren i' j x0); eapply domD_lst_in; [exact Hdp | left; reflexivity]);
+    assert (Hwx : wokD cExp x0) by (apply (Hsub i' j x0 eq_refl); assumption);
+    assert (Hbx : balanced cExp x0) by (apply balanced_of; assumption);
+    destruct (view_is_node ts binops unops _ x0 ltac:(eassumption)) as (vt & vs & ve & vsh & vfs & Evx);
+    assert (Hcc : cond_close [Paren i' j x0; b] = j) by (unfold cond_close; cbn [removelast flat_map leaves]; rewrite app_nil_r, app_assoc; apply last_last)
+  end.
+  rewrite Hcc in Hfen.
+  match goal with |- wokD _ ?N => pose proof (fun n st st' => walk_restores_indent ts n (view N) st st') as Hind0 end.
+  intros n c c' B E Hdep Hsp Hok HB HE Hpre; subst E.
+  pose proof (HAL n c c' B Hdep Hsp Hok HB) as HB0. pose proof (Hind0 n) as Hind. clear Hind0.
+  apply span_node_inv in Hsp; destruct Hsp as [-> Hsp].
+  view_norm.
+  destruct n as [|n]; [exfalso; cbn [tdepth] in Hdep; lia|].
+  inv_spans; pos_facts; ok_facts.
+  destruct (St c) as [d f] eqn:HS0; cbn [pre d_fun d_depth] in *; try subst f.
+  assert (Hc0 : 0 <= c) by (destruct Hok; lia).
+  unfold psym, pkw in *; repeat adv.
+  lazymatch goal with |- _ /\ hitok ?c ?e ?d => assert (Hhit : hitok c e d) by hit_tac; split; [|exact Hhit] end.
+  revert HB0 Hind. walk_unfold. cbn [if_pairs]. open_views. intros HB0 Hind.
+  match goal with |- WriterCursorD.emitsD _ _ _ _ _ (?S >> ((?I >> (?X >> ?Y)) >> ?DR)) _ _ =>
+    eapply (emitsD_tail _ _ _ _ (S >> I >> X) (Y >> DR)); [seq_eq | exact HB0 | | | exact Hind | ]
+  end.
+  - eapply emitsD_after; [apply movesD_spaces; [assumption | exact Hhit]|]. chainD.
+  - repeat first [apply ext_seq | apply ext_walk | apply ext_skip | apply ext_if_pairs; intros; apply ext_walk | apply ext_dropped_else].
+  - match goal with |- nlfree (?j + 1) _ =>
+      match goal with Hj : [j] = ParserProofs.sig _ _ (j + 1) |- _ =>
+        destruct (first_sig_inv ts _ _ Hj) as (_ & Hsj & _); pose proof (sigb_range ts _ Hsj) end;
+      destruct (next_newline_spec ts (j + 1)) as (_ & _ & Hnn); [lia|];
+      intros k t Hk Ht; apply (Hnn k t); [lia | rewrite tok_at_same; exact Ht] end.
 Qed.
 
 Theorem walk_depth : forall m k x, (tsize x <= m)%nat -> shaped k x -> domD x = true -> wokD k x.
@@ -952,36 +1097,9 @@ Proof.
          eapply emitsD_seq; [leaf_stepD | eapply emitsD_after; [apply movesD_indent|]; apply emitsD_assoc;
            eapply emitsD_seq; [leaf_stepD |
              eapply fieldtail_okD; [assumption | exact Hr | exact Hnh | intros y Hy; apply Hwl; right; exact Hy | eassumption | eassumption | eassumption | eassumption | lia | assumption | eassumption]]]. }
-  (* if (c) ... on one line, without else *)
-  pose proof Hdom as Hd0. unfold AstWriterAligned.dom in Hd0. repeat (apply andb_true_iff in Hd0; destruct Hd0 as [Hd0 ?]).
-  match goal with H : strict _ = true |- _ => cbn in H; rename H into Hst end.
-  apply andb_true_iff in Hst. destruct Hst as [Hst _]. apply andb_true_iff in Hst. destruct Hst as [Hcp _].
-  assert (Hep : ep = []).
-  { unfold domD in HdomD. apply andb_true_iff in HdomD. destruct HdomD as [Hx _]. apply andb_true_iff in Hx. destruct Hx as [_ Hx].
-    cbn [no_short_else] in Hx. apply andb_true_iff in Hx. destruct Hx as [Hx _]. cbn in Hx. destruct ep; [reflexivity | discriminate Hx]. }
-  subst ep.
-  destruct cond as [|p [|q cond']]; cbn [app] in *;
-    [destruct b; discriminate Hcp | | destruct p; try discriminate Hcp; destruct cond'; discriminate Hcp].
-  destruct p; try discriminate Hcp.
-  match goal with H : TreeShape.shaped _ _ _ cExp (Node tExpValue _ _ _ [Paren _ _ _]) |- _ =>
-    inversion H; subst;
-    try match goal with Hn : TreeShape.shaped _ _ _ _ (Paren _ _ _) |- _ => destruct (shaped_node _ _ _ _ _ Hn) as (? & ? & ? & ? & ? & Hn'); discriminate Hn' end
-  end.
-  match goal with |- wokD _ (Node _ _ _ _ [Kw _; Lst [Lst [Paren ?i' ?j ?x0; ?b]]]) =>
-    assert (Hdl : domD (Lst [Lst [Paren i' j x0; b]]) = true) by (eapply domD_node_in; [exact HdomD | right; left; reflexivity]);
-    assert (Hdp : domD (Lst [Paren i' j x0; b]) = true) by (eapply domD_lst_in; [exact Hdl | left; reflexivity]);
-    assert (Hdx : domD x0 = true) by (apply (domD_paren i' j x0); eapply domD_lst_in; [exact Hdp | left; reflexivity]);
-    assert (Hdb : domD b = true) by (eapply domD_lst_in; [exact Hdp | right; left; reflexivity]);
-    assert (Hwx : wokD cExp x0) by (apply IH; [cbn [tsize fold_right] in Hsz; lia | assumption | exact Hdx]);
-    assert (Hbx : balanced cExp x0) by (apply balanced_of; assumption);
-    assert (Hwb : wokD cChunk b) by (apply IH; [cbn [tsize fold_right] in Hsz; lia | assumption | exact Hdb]);
-    assert (Hbb : balanced cChunk b) by (apply balanced_of; assumption);
-    destruct (view_is_node ts binops unops _ x0 ltac:(eassumption)) as (vt & vs & ve & vsh & vfs & Evx)
-  end.
-  start_caseD.
-  lazymatch goal with |- _ /\ hitok ?c ?e ?d => assert (Hhit : hitok c e d) by hit_tac; split; [|exact Hhit] end.
-  walk_unfold. cbn [if_pairs]. open_views.
-  eapply emitsD_after; [apply movesD_spaces; [assumption | exact Hhit]|]. eapply emitsD_convE; [chainD; eapply dropped_noneD; cbn [last]; rewrite Evx; reflexivity | lia].
+  (* if (c) ... [else ...] on one line *)
+  eapply shortif_okD; [eassumption | eassumption | eassumption | eassumption | exact HdomD |].
+  intros i' j x0 -> Hx0 Hdx0. apply IH; [cbn [app tsize fold_right] in Hsz; lia | exact Hx0 | exact Hdx0].
 Qed.
 
 
